@@ -175,9 +175,11 @@ func Run(t *testing.T, prop string, seed uint64, tier string, replay *hcommon.Re
 	rand.Seed(int64(simrt.Mix(seed, 0x676c6f62))) // pin the global math/rand used by the repo (GODEBUG randseednop=0)
 
 	var out simrt.Outcome
+	simrt.ObserveHook = ex.observeWrap
 	simrt.Bubble(simrt.TB{T: t}, func() {
 		out = simrt.Run(cfg, ex.main)
 	})
+	simrt.ObserveHook = nil
 	hcommon.Fill(&res, out)
 	if len(p.Clients) > 0 && ex.c != nil && res.Abort == "" {
 		// pure checks over the recorded history, outside the bubble
@@ -904,6 +906,38 @@ func (ex *Exec) observeError(call simnet.Call) {
 	}
 	if originRetryable != callerRetryable {
 		ex.res.Violate("C14", "retryability-changed/"+w.Meta["cause"], "%s from %s to %s: origin error %q (%s) was retryable=%v at the origin but retryable=%v at the caller", call.Method, call.To, call.From, w.Msg, w.Meta["cause"], originRetryable, callerRetryable)
+	}
+}
+
+// observeWrap is the origin half of the C14 monitor. The instrumenter routes every
+// rpc.WrapError / rpc.WrapErrorKV call of the instrumented packages through
+// simrt.ObserveN, so the harness sees the error value a handler returns to a remote
+// caller (origin) together with what is put on the wire. The caller's view is
+// rebuilt exactly as a twirp client does (code + message -> twirp error ->
+// chord.ErrorMapper): a chord error must still be that chord error, and the caller
+// must classify the failure as retryable exactly when the origin does.
+func (ex *Exec) observeWrap(name string, args []any, result any) {
+	if len(args) == 0 {
+		return
+	}
+	origin, _ := args[len(args)-1].(error)
+	wire, _ := result.(twirp.Error)
+	if origin == nil || wire == nil {
+		return
+	}
+	simrt.Probe("origin-error-observed")
+	atCaller := spec.ErrorMapper(twirp.NewError(wire.Code(), wire.Msg()))
+	originRetryable, callerRetryable := spec.ErrorIsRetryable(origin), spec.ErrorIsRetryable(atCaller)
+	var tw twirp.Error
+	if errors.As(origin, &tw) {
+		simrt.Probe("origin-error-is-relayed-rpc-error")
+	}
+	if originRetryable != callerRetryable {
+		ex.res.Violate("C14", fmt.Sprintf("origin-retryability-changed/%T", origin), "%s: the handler returned %q (%T), retryable=%v at the origin; on the wire it is %s %q, which the caller classifies retryable=%v", name, origin.Error(), origin, originRetryable, wire.Code(), wire.Msg(), callerRetryable)
+	}
+	var ce *spec.Error
+	if errors.As(origin, &ce) && !errors.Is(atCaller, ce) {
+		ex.res.Violate("C14", "origin-identity-lost", "%s: the handler returned %q, which is the chord error %q; the caller maps the wire error %s %q to %T %q", name, origin.Error(), ce.Error(), wire.Code(), wire.Msg(), atCaller, atCaller.Error())
 	}
 }
 
